@@ -1,4 +1,4 @@
-CONSTANTS P = 251  A = 1  B = 4  Gx = 0  Gy = 2  N = 271  Iterated = FALSE
+CONSTANTS P = 251  A = 1  B = 4  Gx = 0  Gy = 2  N = 271  Scope = "points"  Iterated = FALSE
 SPECIFICATION Spec
 INVARIANT GroupLaw
 CHECK_DEADLOCK FALSE
